@@ -201,7 +201,7 @@ def correspond(tier, seed, model_ok):
     out = Outcome()
     K = _cl.consts()
     r = Rng(seed)
-    n, nops = (44, 22) if tier == "quick" else (1500, 60)
+    n, nops = (44, 22) if tier == "quick" else (500, 50)
     cases = [gen_case(r.fork(i), nops if not r.chance(1, 10) else nops // 3, K) for i in range(n)]
     corpus = common.load_corpus(PROP)
     pairs = run_cases(corpus + cases, model_ok, out, "q", K, selft=True)
